@@ -22,3 +22,22 @@ Theorem C02_error_entry_keeps_data : forall h r code d,
   lookup r (merge_set [(r, RErr code)] h) = Some d.
 Proof. exact error_entry_keeps_data. Qed.
 Print Assumptions C02_error_entry_keeps_data.
+
+From Coq Require Import ZArith.
+From RG Require Import Comp.Gc.
+
+(* The connection-side collector (model of wsConn.removeCount / tryDelete, Subscription.Dispose / Unsend, tied to the code
+   by the `gc` direct-drive correspondence): whatever the graph (sharing, cycles) and whatever its counters, collecting
+   never unregisters, disposes or "unsends" a resource the client is directly subscribed to. *)
+Theorem C02_collector_keeps_direct : forall g s j,
+  (0 < direct (get g j))%Z -> reg (try_delete g s) j = reg g j.
+Proof. exact try_delete_keeps_direct. Qed.
+Print Assumptions C02_collector_keeps_direct.
+
+(* The full statement one would want - the sent counters stay equal to the number of live sent parents - is FALSE of the
+   unchanged collector (recorded finding KF-COLLECTOR-DISPOSE-SENT); the witness is replayed on the implementation by the
+   `gc` stage (the model and the code agree on it). *)
+Theorem C02_collector_sent_counts_refuted :
+  exists g s, consistent g = true /\ consistent (remove_count g s true false 1%Z true) = false.
+Proof. exact collector_keeps_sent_counts_refuted. Qed.
+Print Assumptions C02_collector_sent_counts_refuted.
